@@ -1496,12 +1496,15 @@ impl Formatter<'_> {
         if allow_compact && !keeps_leading_newline {
             depth_indent = depth_indent.max(start_line_pos);
         }
+        let pad_start = self.output.len();
         if !keeps_leading_newline {
             while start_line_pos < depth_indent {
                 self.output.push(' ');
                 start_line_pos += 1;
             }
         }
+        let pad = self.output.len() - pad_start;
+        let output_line = self.output.line;
         let last_index = items.len() - 1;
         for (i, item) in items.iter().enumerate() {
             let is_empty_line = item.is_empty_line();
@@ -1518,6 +1521,29 @@ impl Formatter<'_> {
             self.format_item(item, 0, depth);
             if !is_empty_line && i == last_index && has_leading_newline && starts_indented {
                 self.newline(depth.saturating_sub(1));
+            }
+        }
+        // A lone item that came out on one line because its line breaks were dropped
+        // is not multiline when formatted again, so it is not padded then
+        if items.len() == 1
+            && pad > 0
+            && !prevent_compact
+            && self.output.line == output_line
+            && !items[0].words_or(true, |words| words_are_multiline_impl(words, false))
+        {
+            self.output.remove_spaces(pad_start, pad);
+            let moved = (self.glyph_map.iter_mut().rev())
+                .take_while(|(_, (_, end))| end.byte_pos as usize > pad_start);
+            for (_, (start, end)) in moved {
+                for loc in [start, end] {
+                    if loc.byte_pos as usize >= pad_start + pad {
+                        loc.byte_pos -= pad as u32;
+                        loc.char_pos -= pad as u32;
+                        if loc.col < u16::MAX {
+                            loc.col -= pad as u16;
+                        }
+                    }
+                }
             }
         }
     }
@@ -1824,9 +1850,13 @@ fn with_break_before_close(word: &Sp<Word>) -> Option<Sp<Word>> {
 }
 
 fn words_are_multiline(words: &[Sp<Word>]) -> bool {
+    words_are_multiline_impl(words, true)
+}
+
+fn words_are_multiline_impl(words: &[Sp<Word>], breaks: bool) -> bool {
     if let Some((last, words)) = words.split_last() {
-        words.iter().any(|word| word_is_multiline(&word.value))
-            || !last.value.is_end_of_line() && word_is_multiline(&last.value)
+        (words.iter()).any(|word| word_is_multiline_impl(&word.value, breaks))
+            || !last.value.is_end_of_line() && word_is_multiline_impl(&last.value, breaks)
     } else {
         false
     }
@@ -1844,6 +1874,16 @@ fn item_is_multiline(item: &Item) -> bool {
 }
 
 pub(crate) fn word_is_multiline(word: &Word) -> bool {
+    word_is_multiline_impl(word, true)
+}
+
+/// Whether a word is multiline, with or without counting the line breaks in brackets
+fn word_is_multiline_impl(word: &Word, breaks: bool) -> bool {
+    let items_are_multiline = |lines: &[Item]| {
+        breaks && lines.len() > 1
+            || (lines.iter())
+                .any(|item| item.words_or(true, |words| words_are_multiline_impl(words, breaks)))
+    };
     match word {
         Word::Number(..) => false,
         Word::Char(_) => false,
@@ -1855,46 +1895,33 @@ pub(crate) fn word_is_multiline(word: &Word) -> bool {
         Word::Ref(..) => false,
         Word::IncompleteRef { .. } => false,
         Word::Strand(_) => false,
-        Word::Array(arr) => {
-            arr.lines.len() > 1
-                || (arr.lines.iter()).any(|item| item.words_or(true, words_are_multiline))
-        }
-        Word::Func(func) => {
-            func.lines.len() > 1
-                || (func.lines.iter()).any(|item| item.words_or(true, words_are_multiline))
-        }
-        Word::InlineMacro(mac) => {
-            mac.func.value.lines.len() > 1
-                || (mac.func.value.lines.iter())
-                    .any(|item| item.words_or(true, words_are_multiline))
-        }
+        Word::Array(arr) => items_are_multiline(&arr.lines),
+        Word::Func(func) => items_are_multiline(&func.lines),
+        Word::InlineMacro(mac) => items_are_multiline(&mac.func.value.lines),
         Word::Pack(pack) => {
             // Branches that start on different lines are put on different lines
-            (pack.branches.windows(2)).any(|brs| brs[0].span.start.line != brs[1].span.start.line)
+            breaks
+                && (pack.branches.windows(2))
+                    .any(|brs| brs[0].span.start.line != brs[1].span.start.line)
                 || pack.branches.iter().any(|br| {
                     // The empty lines at the start of a branch are dropped
                     let mut lines = br.value.lines.as_slice();
                     while lines.first().is_some_and(Item::is_empty_line) {
                         lines = &lines[1..];
                     }
-                    lines.len() > 1
-                        || lines.iter().any(|item| item.words_or(true, words_are_multiline))
+                    items_are_multiline(lines)
                 })
         }
         Word::Primitive(_) => false,
         Word::Modified(m) => {
-            m.operands.iter().any(|word| word_is_multiline(&word.value))
+            (m.operands.iter()).any(|word| word_is_multiline_impl(&word.value, breaks))
                 || match &m.modifier.value {
-                    Modifier::Macro(mac) => {
-                        mac.func.value.lines.len() > 1
-                            || (mac.func.value.lines.iter())
-                                .any(|item| item.words_or(true, words_are_multiline))
-                    }
+                    Modifier::Macro(mac) => items_are_multiline(&mac.func.value.lines),
                     _ => false,
                 }
         }
         Word::Placeholder(_) | Word::PlaceholderN => false,
-        Word::Subscripted(sub) => word_is_multiline(&sub.word.value),
+        Word::Subscripted(sub) => word_is_multiline_impl(&sub.word.value, breaks),
         Word::Comment(_) => true,
         Word::Spaces => false,
         Word::BreakLine => true,
@@ -1956,6 +1983,14 @@ impl Output {
             self.col -= 1;
         }
         Some(c)
+    }
+    /// Remove spaces that are followed by no line break
+    fn remove_spaces(&mut self, start: usize, count: usize) {
+        debug_assert!(self.text[start..start + count].bytes().all(|b| b == b' '));
+        debug_assert!(!self.text[start..].contains('\n'));
+        self.text.replace_range(start..start + count, "");
+        self.char_pos -= count as u32;
+        self.col -= count;
     }
     fn end_loc(&self) -> Loc {
         Loc {
